@@ -38,6 +38,10 @@ CHECKS.update({
     "C10": simcheck("§4 C10", "Generated schedules (cron grammar, id templates), clock jumps over many occurrences, schedule batch sizes, create/delete/re-create and user-created occurrence promises racing the cycle, faults and crashes; oracle S1-S4 with an independent robfig/cron computation and reference template expansion: occurrences fire once, in order, never early, promise + advance in one transaction, correct promise fields, nothing fires for a deleted incarnation's later occurrences."),
     "C11": simcheck("§4 C11", "Phase 1 builds a reachable backlog without background work, the clock jumps, the kernel restarts with all five background coroutines (registration order permuted) and a configuration drawn over the documented ranges down to batch sizes and coroutine pool of one; a finite failure phase; then cycles (clock + signal timeout, ticks until settled). Oracle: the statement's quiescence predicates hold within a bound computed from backlog/batch sizes and keep holding, every cycle settles, no task stays dispatchable beyond its bound. Workloads are kept below service capacity (schedule periods >= 60 s, scheduled promises not overdue) so that lag cannot grow without a defect. Found F12 (repaired)."),
     "C14": simcheck("§4 C14", "Generated populations, queries (wildcards, state subsets, tags, limits relative to the match count) and full cursor traversals through encode->token->decode with creations, completions, deletions and time-outs interleaved; oracle R1-R6: returned items match in the state the page was computed from, no duplicates, newest-first by sort id, page size and cursor presence, everything that matched throughout a completed traversal is returned, overdue promises never reported pending, tampered tokens rejected."),
+    "C15": dict(engine="front", category="exploration", design="§5 C15",
+                technique="exhaustive enumeration of the (endpoint x kernel status x response shape x delivery) matrix against a stub kernel, plus property-based differential testing (rapid) of HTTP vs gRPC request translation",
+                text="Part 1 enumerates completely, on every run, every endpoint of both protocols x every StatusCode constant (parsed from t_api/status.go at run time) x every response shape the operation's coroutine can return, delivered as response status and as t_api.Error, through the real gin handler and the real gRPC service methods: no panic / dropped reply, HTTP code = status/100 with a parsable error body carrying the status, gRPC OK message or the documented code class, outcome flags consistent with the status. Part 2 generates well-formed requests in both protocols and requires the same t_api.Request to reach the kernel. Found F5 (statuses missing from tables; released flag), repaired.",
+                note="The stub kernel stands in for the coroutines: only shapes taken from their return sites are delivered (never a 201 claim without task, which the kernel asserts away). The gRPC methods are called directly (hook NewVerifServer), not through a network listener; proto marshalling is exercised by the proc engine (C13/C20)."),
     "C16": dict(engine="storepbt", category="exploration", design="§5 C16",
                 technique="model-based property testing (rapid): real sqlite store vs an executable in-memory reference model, metamorphic batch-vs-single relation, driver-level fault injection enumerated over every statement position",
                 text="Generated sequences of batches of transactions of all 27 command kinds (tiny argument pools, realistic and tiny times) through store.Process on the real sqlite store. Oracle: reference model of the five tables (every Result, every table after every Execute through a second connection; validity predicates for unordered reads); batch vs one-transaction-per-batch equality; an injected failure at EVERY statement position and at commit (wrapping database/sql driver) and natural errors must fail every submission and leave the pre-batch tables; at every statement boundary another connection still sees the pre-batch tables.",
@@ -51,6 +55,7 @@ CHECKS.update({
 NOT_APPLICABLE = []
 
 ENGINES = [
+    dict(name="front", path="harness/front", kind_free_text="stub kernel behind the real gin handler and gRPC service implementation; exhaustive status matrix + generated request equivalence"),
     dict(name="storepbt", path="harness/storepbt", kind_free_text="store command generator + executable reference model + failing/observing database/sql driver + pgsim (Postgres dialect on SQLite)"),
     dict(name="sim", path="harness/sim", kind_free_text="deterministic simulator: real system.System/api/coroutines/sqlite store/router/sender worker behind a rapid-driven AIO (schedule, faults, crashes are draws); per-transaction snapshots; statement-derived oracles"),
 ]
